@@ -22,7 +22,8 @@ def build_plan(choice: Choice, tier):
     # workers <= 0 means "as many as there are cpus": the cpu count is then the drawn number
     p["workers_arg"] = [None, None, None, -1, 0][d(5, "workers.arg")]
     p["pipe_delay"] = d(4, "pipe.delay") != 0
-    p["pipe_capacity"] = [None, None, 1, 2][d(4, "pipe.capacity")] if p["pipe_delay"] else None
+    # 0: every item is larger than the pipe (a synchronous writer then needs a reader to finish its write)
+    p["pipe_capacity"] = [None, None, 1, 2, 0][d(5, "pipe.capacity")] if p["pipe_delay"] else None
     p["functor_pause"] = d(3, "functor.pause")
     p["consumer_pause"] = d(3, "consumer.pause")
     p["granularity"] = "line" if d(5, "granularity") != 4 else "sync"
@@ -106,12 +107,36 @@ def scenario(k: Kernel, plan, obs):
         def cpu_count(self):
             return plan["workers"]
 
+        # module-level constructors belong to the default context, which is the simulated one
+        def Queue(self, maxsize=0):
+            return ctx.Queue(maxsize)
+
+        def SimpleQueue(self):
+            return ctx.SimpleQueue()
+
+        def Lock(self):
+            return ctx.Lock()
+
+        def RLock(self):
+            return ctx.RLock()
+
+        def Event(self):
+            return ctx.Event()
+
+        def Manager(self):
+            return ctx.Manager()
+
         def __getattr__(self, name):
             import multiprocessing as _mp
             return getattr(_mp, name)
 
     pools.multiprocessing = MPShim()
     maps.multiprocessing = MPShim()
+    # names imported with `from multiprocessing import ...` (today: Queue; a variant may import more of them)
+    for mod in (pools, maps, workers):
+        for name in ("SimpleQueue", "Lock", "RLock", "Event", "Manager"):
+            if hasattr(mod, name):
+                setattr(mod, name, getattr(ctx, name))
     from sim.prims import install_threading_shims
     from sim.kernel import patch_threading
     patch_threading(k)      # a thread the code under test may start becomes a task of the kernel
